@@ -219,11 +219,24 @@ def random_shard(st, shard, nshards, payload):
         'naming': hs.sampled_from(NAMINGS),
         'how': hs.integers(0, 5),
         'form': hs.sampled_from(FORMS),
+        'extra': hs.integers(0, 600),
     })
 
     def body(inp):
         f_ = fm.from_json(inp['f'])
         nt = is_nontrivial(f_)
+        if inp['extra'] % 3 == 0:
+            # an atom that the formula does not mention, named like the atoms the checker generates
+            # itself ('[E(X(p))]', 'fair', ...): it cannot change the answer, K carries it legitimately
+            from .c06 import adversarial_names
+            names = adversarial_names(f_)
+            name = names[(inp['extra'] // 3) % len(names)]
+            K = inp['K']
+            where = set((inp['extra'] // 7 + j) % K['n'] for j in range(1 + inp['extra'] % 2))
+            inp = dict(inp, K=dict(K, labels=[list(l) + ([name] if i in where else [])
+                                              for i, l in enumerate(K['labels'])]))
+            st.bump('random: K carries an atom named like a generated one')
+        inp = dict((k, v) for k, v in inp.items() if k != 'extra')
         st.random_case([inp['K'], inp['f']], nt)
         st.bump('random form=' + inp['form'])
         st.bump('random nesting=%d' % fm.quant_depth(f_))
